@@ -849,7 +849,7 @@ func c25Ops(m *model, thorough bool) []string {
 			maxIssued = 2
 		}
 		if thorough {
-			maxIssued = 4
+			maxIssued = 3
 		}
 		if len(a.Used) < maxIssued {
 			switch {
@@ -961,6 +961,8 @@ var c25Seeds = [][]string{
 	{"save|1|0|R", "issueT|1|0|1", "issue|1|1|0", "retarget|1|1|1"},
 	{"save|1|0|S", "issue|1|0|3", "ipub|1|1/1/3|n0|2", "aissue|1"},
 	{"save|2|0|R", "issue|2|0|0", "ipub|2|2/1/0|n0|1", "claim|1|n0|2|0", "save|1|0|R", "issue|1|0|2"},
+	// a published and stored capability whose controller was deleted (must never become valid again)
+	{"save|1|0|R", "issue|1|0|2", "pub|1|1/1/2|0", "del|1|1"},
 }
 
 func runC25(env *mc.Env) {
@@ -1004,10 +1006,11 @@ func runC25(env *mc.Env) {
 }
 
 func c25Depth(env *mc.Env, empty bool) int {
+	// both tiers use the same depths; the thorough tier widens the alphabet (see c25Ops)
 	if empty {
-		return mc.Pick(env, 3, 4)
+		return 3
 	}
-	return mc.Pick(env, 2, 3)
+	return 2
 }
 
 func c25BFS(env *mc.Env, cx *c25Ctx, init []mc.Node[*c25State], depth int, report func([]string, []viol)) mc.BFSOpts[*c25State] {
@@ -1055,7 +1058,7 @@ func replayC25(env *mc.Env, raw json.RawMessage) (bool, string) {
 func init() {
 	mc.Register(&mc.Check{
 		ID: "C25",
-		Rule: "explicit-state BFS (depth 3 from the empty state, depth 2 from 4 seeded states; thorough 4/3) over one-operation transactions on 2 accounts x 2 storage paths x 2 public paths: " +
+		Rule: "explicit-state BFS (depth 3 from the empty state, depth 2 from 5 seeded states of 3-6 operations; the thorough tier widens the alphabet) over one-operation transactions on 2 accounts x 2 storage paths x 2 public paths: " +
 			"save/load R|S at targets, storage issue/issueWithType over {&R,&{RI},auth(E)&R,&S}, account issue, retarget, setTag, delete, publish/unpublish, inbox publish/unpublish<T>/claim<T>; " +
 			"after every committed transaction an observer script in a fresh runtime reads getController(s)/forEachController of both namespaces, exists, and for every published path x 8 wanted types get<T> (then borrow/check of the result against all 8 types) and capabilities.borrow<T>, and borrow/check x 8 types of every capability value kept in storage; compared with the Go controller model, events compared per transaction; both engines. " +
 			"non-trivial = distinct (state class of a capability, probe pattern with at least one success), valid get results, inbox values returned",
